@@ -647,6 +647,40 @@ def fp12BackCyc (o : FOps E) (nor : E → E) (isOne : Bool) (a : Fp12 E) : Fp12 
   let c00 := o.add c00 o.one      -- fp_add_dig(c[0][0][0], c[0][0][0], 1)
   ⟨⟨c00, a.c0.c1, a.c0.c2⟩, ⟨a.c1.c0, c11, a.c1.c2⟩⟩
 
+/-- fp12_back_cyc WITH THE REPAIR PROPOSED FOR FINDINGS C10-F3 AND C10-F8 (findings/C10-3.md, C10-8.md): in the
+    exceptional branch the numerator stays 2·g4·g5, and the identity is recognised by its compressed form. Not the code
+    of /repo; Lemmas/Fpx.lean proves that this version decompresses every element of the cyclotomic subgroup. -/
+def fp12BackCycFixed (o : FOps E) (nor : E → E) (a : Fp12 E) : Fp12 E :=
+  let f := o.isZero a.c1.c0
+  let t2 := if f then a.c1.c2 else a.c0.c1
+  let t0 := o.mul a.c0.c1 t2
+  let t2 := o.dbl t0
+  let t0 := if f then t2 else t0
+  let t1 := o.sub t0 a.c0.c2
+  let t1 := o.dbl t1
+  let t1 := o.add t1 t0
+  let t2 := o.sqr a.c1.c2
+  let t2 := nor t2
+  let t2 := o.add t2 t1
+  let t0 := if f then t0 else t2
+  let t1 := o.dbl a.c1.c0
+  let t1 := o.dbl t1
+  let t1 := if f then a.c0.c2 else t1
+  let isId := o.isZero a.c1.c0 && o.isZero a.c0.c2 && o.isZero a.c0.c1 && o.isZero a.c1.c2
+  let t1 := if isId then o.one else t1
+  let t1 := o.inv t1
+  let c11 := o.mul t0 t1
+  let t1 := o.mul a.c0.c2 a.c0.c1
+  let t2 := o.sqr c11
+  let t2 := o.sub t2 t1
+  let t2 := o.dbl t2
+  let t2 := o.sub t2 t1
+  let t1 := o.mul a.c1.c0 a.c1.c2
+  let t2 := o.add t2 t1
+  let c00 := nor t2
+  let c00 := o.add c00 o.one
+  ⟨⟨c00, a.c0.c1, a.c0.c2⟩, ⟨a.c1.c0, c11, a.c1.c2⟩⟩
+
 /-- fp8_sqr_cyc / fp16_sqr_cyc: squaring of a unitary element of a quadratic level (o = operations of the sub-level,
     nor = multiplication by the adjoined square) -/
 def quadSqrCyc (o : FOps E) (nor : E → E) (a : V2 E) : V2 E :=
